@@ -268,6 +268,53 @@ def visit_log(root, single_visit, cap=4000):
     return {'nodes': order, 'kids': [[k, v] for k, v in kids.items()], 'toks': toks, 'sv': single_visit, 'root': nid(root), 'events': ev}
 
 
+def export_cert(pf, root, text, lexer, cap=600):
+    """the real SPPF below `root` in the format of the Lean checker ForestCert.checkForest (driver op forest_cert), with the lattice the property prescribes"""
+    from lark.parsers.earley_forest import SymbolNode, TokenNode
+    import earleylib
+    rules, nts, tm = earleylib.export_rules(pf)
+    rkey = lambda r: (r.origin.name, tuple((s_.is_term, s_.name) for s_ in r.expansion), r.alias, r.order)
+    ridx = {rkey(r): i for i, r in enumerate(pf.rules)}
+    if lexer == 'basic':
+        toks = list(pf.lex(text))
+        pos2idx = {t.start_pos: i for i, t in enumerate(toks)}
+        n = len(toks); edges = [[tm[t.type], i, i + 1] for i, t in enumerate(toks) if t.type in tm]; igns = []
+        span = lambda tok: (pos2idx[tok.start_pos], pos2idx[tok.start_pos] + 1)
+    else:
+        n, edges, igns = earleylib.spec_lattice(pf, text, lexer, tm)
+        span = lambda tok: (tok.start_pos, tok.end_pos)
+    ids, order, stack = {}, [], [root]
+    while stack:
+        x = stack.pop()
+        if id(x) in ids or isinstance(x, TokenNode):
+            continue
+        ids[id(x)] = len(order); order.append(x)
+        if len(order) > cap:
+            return None
+        for p_ in x.children:
+            for c in (p_.left, p_.right):
+                if c is not None and not isinstance(c, TokenNode):
+                    stack.append(c)
+    nodes, fams = [], []
+    for x in order:
+        if isinstance(x.s, tuple):
+            nodes.append([1, ridx[rkey(x.s[0])], x.s[1], x.start, x.end])
+        else:
+            nodes.append([0, nts.setdefault(x.s.name, len(nts)), 0, x.start, x.end])
+        fl = []
+        for p_ in x.children:
+            if p_.right is None:
+                right = None
+            elif isinstance(p_.right, TokenNode):
+                a, b = span(p_.right.token)
+                right = [1, tm.setdefault(p_.right.token.type, len(tm)), a, b]
+            else:
+                right = [0, ids[id(p_.right)]]
+            fl.append([ridx[rkey(p_.rule)], None if p_.left is None else ids[id(p_.left)], right])
+        fams.append(fl)
+    return {'op': 'forest_cert', 'rules': rules, 'n': n, 'edges': edges, 'igns': igns, 'nodes': nodes, 'fams': fams, 'root': ids[id(root)]}
+
+
 def _forest_case(args):
     g, seed, want = args          # want: set of 'c04','c05','c20'
     from lark import Lark, Tree, Token
@@ -441,6 +488,10 @@ def _forest_case(args):
                         run['forest_one'] = json.dumps(canon_tree(t_one))
                         run['graph_nodes'] = len(forest_stats(root))
                         run['visit_logs'] = [v for v in (visit_log(root, False), visit_log(root, True)) if v is not None]
+                        try:
+                            run['cert'] = export_cert(pf, root, text, lexer)
+                        except KeyError as e:
+                            run['cert_export_error'] = repr(e)
             except Timeout:
                 run['forest_timeout'] = True
         # ---- C04: explicit ambiguity
